@@ -267,6 +267,26 @@ Theorem c05_pow2 : instr_spec_g (ops_of "pow2") 1 g64 no_pre (fun xs => [2 ^ nz 
 Proof. exact pow2_ok. Qed.
 Print Assumptions c05_pow2.
 
+(* shifts and rotations by an immediate amount: every form u32shl.N, u32shr.N, u32rotl.N, u32rotr.N, N = 0..31 *)
+Theorem c05_u32shl_imm : forall n, (n < 32)%nat ->
+  instr_spec_g (ops_of ("u32shl." ++ show n)) 1 g1 no_pre (fun xs => [(nz xs 0 * 2 ^ Z.of_nat n) mod TWO32]).
+Proof. exact u32shl_imm_ok. Qed.
+Print Assumptions c05_u32shl_imm.
+Theorem c05_u32shr_imm : forall n, (n < 32)%nat ->
+  instr_spec_g (ops_of ("u32shr." ++ show n)) 1 g1 no_pre (fun xs => [nz xs 0 / 2 ^ Z.of_nat n]).
+Proof. exact u32shr_imm_ok. Qed.
+Print Assumptions c05_u32shr_imm.
+Theorem c05_u32rotl_imm : forall n, (n < 32)%nat ->
+  instr_spec_g (ops_of ("u32rotl." ++ show n)) 1 g1 no_pre
+    (fun xs => [(nz xs 0 * 2 ^ Z.of_nat n) mod TWO32 + (nz xs 0 * 2 ^ Z.of_nat n) / TWO32]).
+Proof. exact u32rotl_imm_ok. Qed.
+Print Assumptions c05_u32rotl_imm.
+Theorem c05_u32rotr_imm : forall n, (n < 32)%nat ->
+  instr_spec_g (ops_of ("u32rotr." ++ show n)) 1 g1 no_pre
+    (fun xs => [nz xs 0 / 2 ^ Z.of_nat n + (nz xs 0 mod 2 ^ Z.of_nat n) * 2 ^ (32 - Z.of_nat n)]).
+Proof. exact u32rotr_imm_ok. Qed.
+Print Assumptions c05_u32rotr_imm.
+
 (* non-vacuity: the generated table really contains these instructions, and a concrete stack
    meets the hypotheses *)
 Example c05_table_nonempty :
